@@ -47,7 +47,13 @@ func replay(args []string) {
 	workers := fs.Int("workers", 16, "parallel replays")
 	seed := fs.Int64("seed", 1, "seed for concretisation")
 	_ = fs.Parse(args)
-	_ = seed
+	tdir, err := os.MkdirTemp("", "vh-tls-")
+	if err != nil {
+		fmt.Fprintln(os.Stderr, "vh:", err)
+		os.Exit(2)
+	}
+	defer os.RemoveAll(tdir)
+	session.TLSDir = tdir
 
 	f, err := os.Open(*in)
 	if err != nil {
@@ -105,6 +111,7 @@ func replay(args []string) {
 	of.Close()
 	fmt.Printf("replayed=%d infra=%d\n", len(jobs), infra)
 	if infra > 0 {
+		os.RemoveAll(tdir)
 		os.Exit(2)
 	}
 }
@@ -121,7 +128,9 @@ func runOne(family string, j job, seed int64) result {
 		}
 		rn := &session.Runner{Sc: s, Rec: rec.New(), T: j.idx}
 		rn.Run()
-		return result{idx: j.idx, lines: rn.Rec.Lines(), infra: rn.Infra}
+		evs := rn.Rec.Events()
+		session.PostProcessLogs(evs)
+		return result{idx: j.idx, lines: rec.Marshal(evs), infra: rn.Infra}
 	}
 	return result{idx: j.idx, infra: fmt.Errorf("unknown family %q", family)}
 }
